@@ -166,6 +166,31 @@ class FusionEngine(object):
         self._silent[key] = out
         return out
 
+    def words(self, tc, first=None, last=None):
+        """sample words of the class with the given boundary atom fixed
+        and the other boundary ranging over every (representative) atom:
+        the layout handlers see whole token texts, so a decision may
+        depend on either end of either token"""
+        if tc[0] == 'lit':
+            return [tc[1]]
+        key = ('words', tc, first, last)
+        if key in self._silent:
+            return self._silent[key]
+        la, fa = self.boundary_atoms(tc)
+        out = []
+        if last is not None:
+            for f in fa:
+                w = self.sample(tc, first=f, last=last)
+                if w is not None and w not in out:
+                    out.append(w)
+        elif first is not None:
+            for l in la:
+                w = self.sample(tc, first=first, last=l)
+                if w is not None and w not in out:
+                    out.append(w)
+        self._silent[key] = out
+        return out
+
     # -- fusion ----------------------------------------------------------
 
     def fusion(self, ta, tb, x, y):
@@ -202,8 +227,11 @@ class FusionEngine(object):
         return self.T.table(name, **kw)['layout_handlers']
 
     def run_output(self, handlers, run, before, after):
-        key = (id(handlers), run, before[-1:] if before else before,
-               after if after is None or len(after) < 5 else after[:1],
+        def ends(t):
+            if t is None:
+                return None
+            return t if len(t) < 5 else (t[:1], t[-1:])
+        key = (id(handlers), run, ends(before), ends(after),
                after in self.special_afters() if after else None)
         if key in self._silent:
             return self._silent[key]
@@ -300,14 +328,19 @@ def fusion_rule(report, E, rid, title, handlers, handled, comments=False,
                 if w is None and sect is None:
                     checked += 1
                     continue
-                before = E.sample(ta, last=x)
-                after = E.sample(tb, first=y)
-                if before is None or after is None:
-                    continue
-                out = E.run_output(handlers, run, before, after)
+                silent = None
+                for before in E.words(ta, last=x):
+                    for after in E.words(tb, first=y):
+                        out = E.run_output(handlers, run, before, after)
+                        if not out:
+                            silent = (before, after)
+                            break
+                    if silent:
+                        break
                 checked += 1
-                if out:
+                if silent is None:
                     continue
+                before, after = silent
                 slot = ' '.join('%s(%s)' % (m[0], m[1]) for m in run) \
                     or '<adjacent>'
                 defs = sorted(set(m[1] for m in run)) or ['-']
